@@ -100,6 +100,8 @@ impl PkeSealingVersion for V1 {
         mac.update(b"\x01k1.seal.");
         mac.update(r.as_bytes());
         let (ek, n) = mac.finalize_reset().into_bytes().split();
+        #[cfg(paseto_verif)]
+        let n = paseto_core::verif::iv16("k1.seal", n.into()).into();
 
         mac.update(b"\x02k1.seal.");
         mac.update(r.as_bytes());
@@ -169,6 +171,8 @@ impl PkeUnsealingVersion for V1 {
         mac.update(b"\x01k1.seal.");
         mac.update(r.as_bytes());
         let (ek, n) = mac.finalize().into_bytes().split();
+        #[cfg(paseto_verif)]
+        let n = paseto_core::verif::iv16("k1.seal", n.into()).into();
 
         ctr::Ctr64BE::<aes::Aes256>::new(&ek, &n).apply_keystream(edk);
 
